@@ -1,6 +1,28 @@
 """One entry per claimed property: level, technique, texts. bin/mkmanifest turns this into MANIFEST.json."""
 ALL = ['C%02d' % i for i in range(1, 21)]
 CHECKS = {
+ 'C01': dict(level='exploration', ref='3/C01',
+   technique='deviation-bounded exhaustive enumeration: every document within <= 1 (quick) / <= 2 (thorough) deviations of 22 seed document sets, plus exhaustive MathML shape, scale and cycle '
+             'families, driven through the whole pipeline under ASan+UBSan with crash isolation per case',
+   text='22 seed sets (CellML 2.0 units/variables/encapsulation/connections/resets/imports with library documents, 1.0, 1.1, math, non-CellML, empty, garbage) x EVERY single deviation at '
+        'every location (hostile attribute values by kind incl. self/cyclic references, attribute delete/duplicate/rename/add, element delete/duplicate/move-under-every-element/rename-to-every-'
+        'element-name/8 namespaces, 15 inserted node kinds at every child position, truncation at every token boundary, 22 byte-level edits) x {strict, permissive} parser; all pairs of a reduced '
+        'alphabet (thorough); all MathML trees apply(head, 0-3 operands), container(name, 0-3 children), apply(H, C) over the validator\'s vocabulary + 5 unsupported names (quick), one arbitrary '
+        'operand among <= 3, depth 3 over 14 arity-sensitive operators (thorough); 16 scale structures at n in {1,10,100,250} (1000 on the plain build) and 12 cycle kinds of length 1-3, each '
+        'pipeline stage in isolation. Every stage (parse, validate, print +autoIds +reparse, isDefined/hasImports/requiresImports/isResolved on every entity, resolve + flatten with an in-memory '
+        'library under both importer modes, analyse, generate C and Python) runs on whatever the previous one returned. Complete for the stated bounds; nothing is sampled.',
+   note='Trusted: ASan/UBSan and the exit status as crash oracle, libxml2 (called directly) as the reference for well-formedness, a harness-side SIGSEGV handler that names a stack overflow after '
+        'the recursive function, the mini DOM that edits the seeds. The weak "is reported" expectation speaks only for ill-formed XML and four kinds of plainly invalid deviations (C04 owns the '
+        'rule-level verdicts). Not covered: documents more than two deviations from a seed, import hrefs that name existing files or devices, encodings beyond the listed byte edits.'),
+ 'C05': dict(level='exploration', ref='3/C05',
+   technique='bounded-exhaustive enumeration of dependency graphs x placements x order/renaming transformations, against ground truth computed from the construction',
+   text='All dependency graphs on up to 3 variables (kind of definition x read sets, within an edge bound per tier) spread over two connected components in every way are analysed under '
+        'nine order/renaming transformations; model type and every variable role are compared with ground truth from the construction, every valid AnalyserModel is checked for the '
+        'well-formedness rules of the statement (each class once, dense indices, equation/variable cross-references, dependencies, topological order, NLA siblings), the classification must '
+        'be identical across all transformations, and the generated code of the identity layout is executed and compared with reference values. Dropped/duplicated equations and dropped '
+        'initial values must be classified under-/over-constrained with an issue.',
+   note='Trusted: lib/depgraph.py ground truth (derived from the enum documentation), lcx dump of the AnalyserModel through the public API. Not covered: n > 3, more than two components, '
+        'second-order ODEs and cyclic explicit definitions (judged nowhere), units.'),
  'C03': dict(level='exploration', ref='3/C03',
    technique='bounded-exhaustive enumeration of MathML expression-tree shapes x context wrappers; generated C compiled and run, generated Python executed, against an independent reference evaluator',
    text='Every expression tree of depth <= 2 over the whole supported MathML operator set (each parent x operand position x child operator, constants, cn forms) and '
@@ -10,6 +32,27 @@ CHECKS = {
         'any anomalous pack is bisected to single shapes; the thorough tier re-runs the depth-1/2 family unpacked.',
    note='Trusted: lib/mexpr.py reference evaluator (written from the MathML/CellML specifications), gcc -O0, CPython, tolerance 1e-9. Not covered: trees deeper than 3, '
         'non-finite or ill-conditioned valuations, units scaling between components (see C08/C06).'),
+ 'C09': dict(level='model_checking', ref='3/C09',
+   technique='explicit-state breadth-first search over API call histories with the real library as the transition relation, de-duplicated by a canonical state key and run to '
+             'the fixpoint of reachable states, each transition judged by a reference model (set of allowed post-states) and by state invariants; plus an exhaustive '
+             '(entry point x argument class x receiver state) matrix under ASan/UBSan with crash isolation',
+   text='(a) Nine state machines over tiny universes with forced collisions: component forest (models M0,M1; components c0,c1 structurally identical, c2 distinct; '
+        '433 operations: addComponent incl. self/ancestor insertion, remove x3, take x2, replace x3 with searchEncapsulated t/f, removeAll, contains, dropping the '
+        "harness's reference to a component or model), variables in components, units in models (incl. replaceUnits x3, model destruction), resets in components (incl. "
+        'setVariable/setTestVariable, which change structural equality), equivalences on 4 variables (both orders, self-pairs), equivalence ids on 3 variables (2- and '
+        '4-argument addEquivalence, set/remove mapping and connection ids, hidden id maps in the state key), equivalence lifetime (variables removed from components, '
+        'references to variables/components/model dropped). All run to the fixpoint of their canonical state space (quick: 7 machines, about 1.4e4 states / 7.6e5 '
+        'transitions; thorough adds the full reset alphabet and a 4-variable lifetime machine bounded at depth 6). Invariants in every state: every listed child reports '
+        'its container as parent, nothing listed twice or by two containers, hierarchy acyclic, equivalence symmetric, equivalentVariable(i) non-null below the count, ids '
+        'symmetric. (b) 280 entry points of the object model, Annotator, Importer, Analyser, AnalyserExternalVariable, AnalyserModel/Variable/Equation, Generator, Printer, '
+        'Validator, Parser and Logger, each with every applicable argument class {null, never added, owner destroyed, index == count, SIZE_MAX, unknown name, empty name} '
+        'and receiver state {fresh, populated, owner destroyed}: must not crash; target roles must be refused (false/null/empty/issue) and leave the canonical state of '
+        'every reachable object unchanged.',
+   note='Trusted: the reference models in harness/c09*.hpp (vectors + parent map + held flags; structural equality recomputed independently), observation through public '
+        'getters plus weak_ptr liveness (hidden id maps read through the pimpl only for the state key), ASan/UBSan and fork isolation as crash oracle. Limits: universes of 3 '
+        'entities per kind; states behind a reported violation are not expanded; calls that add an entity to its current parent are generated but not judged; the entry-point '
+        'table is hand-written, but every run cross-checks it against src/api/libcellml/*.h (119 public methods with an entity/index/name parameter must all be present, else exit 2); '
+        'no random long-history pass; no cross-machine search.'),
  'C10': dict(level='exploration', ref='3/C10',
    technique='bounded-exhaustive enumeration of ALL ordered pairs and ALL triples of a per-kind pool (bases, every child-order permutation, every single mutation at every '
              'depth, 0-3 identical children, not-covered variants, null) built through the API, judged by equality of an independent canonical dump (children as multisets)',
@@ -27,13 +70,13 @@ CHECKS = {
              'alphabet applied to original and (separately) clone on fresh objects; judged by independent canonical dumps, printer output, equals(), parent and object identity',
    text='Models = full grid over 8 dimensions (hierarchy shape 4, encapsulation ids 2, units flavour 4 incl. imported and variable-owned units, reset flavour 5 incl. unset order / variable of '
         'another component / null variables, imports 3 incl. two components sharing one import source, equivalences 4 incl. mapping+connection ids, math 2, ids 2: 7680 models thorough, '
-        '432 quick), each built through the API and re-read from its printed form. Every model, component, units, variable and reset is cloned: field-by-field content incl. isOrderSet, encapsulation '
+        '216 quick), each built through the API and re-read from its printed form. Every model, component, units, variable and reset is cloned: field-by-field content incl. isOrderSet, encapsulation '
         'ids, import references, equivalences with ids; printed forms; equals both ways; no parent; no object shared with the original; equivalences closed over the clone. Then every member of '
         'the alphabet (all setters on every reachable sub-entity, add/remove of every child kind, equivalence add/remove/ids, import source url/id through the entity, ~50-250 per entity) is '
-        'applied to a fresh original and to a fresh clone and the other side must be unchanged (0.8 M mutations quick). A second family clones models with an equivalence to a variable outside '
+        'applied to a fresh original and to a fresh clone and the other side must be unchanged (0.4 M mutations quick). A second family clones models with an equivalence to a variable outside '
         'the model (no crash, own equivalences unchanged).',
    note='Trusted: canonical dumps (common.hpp, c10c11.hpp), the JSON->API builder, the repository printer/parser for the parsed origin and the printed-form comparison, ASan/UBSan. Known field '
-        'losses are repaired on the clone from outside before the whole-object comparisons so that other differences still surface. Quick runs the parsed origin without ASan. Only one '
+        'losses are repaired on the clone from outside before the whole-object comparisons so that other differences still surface. The mutation phase of the parsed origin runs without ASan. Only one '
         'mutation per run; models have <= 4 components and 2 variables each.'),
  'C16': dict(level='exploration', ref='3/C16',
    technique='bounded-exhaustive enumeration of all strings of length <= 5 over the numeric alphabet in every numeric position, against a reference DFA',
@@ -45,14 +88,14 @@ CHECKS = {
  'C18': dict(level='model_checking', ref='3/C18',
    technique='explicit enumeration of all connection graphs x query orders on the real code, plus an exhaustively explored model of the cache-key arithmetic '
              'over address windows that is bound to the code by placing real Variable objects at the witness addresses and reading the key the code stored',
-   text='(a) every graph on n <= 4 (quick) / 5 (thorough) variables, every assignment of the variables to 2-3 components (flat and nested), is built through the API and '
+   text='(a) every graph on n <= 4 (quick) / 5 (thorough) variables, every assignment of the variables to 2-3 components (flat siblings, and for n <= 4 also nested), is built through the API and '
         'analysed; all ordered pairs incl. (v,v) are asked 3x each of Variable::hasEquivalentVariable(v,true) and AnalyserModel::areEquivalentVariables in lexicographic, reverse '
         'and each-pair-first order, and for n <= 3 in ALL permutations of the ordered pairs; answers are compared with union-find reachability over the equivalentVariable(i) lists. '
         '(b) the key K(a,b) read from analysermodel.cpp is explored over 12 (quick) / 24 (thorough) windows of 64 / 256 MiB of 16-byte-aligned addresses: all sums are enumerated, '
         'sorted by T(s) and every near-equal pair expanded, which yields ALL key collisions inside a window (the enumerator is cross-checked against brute force on scaled-down word widths); '
         'each witness is replayed on real Variables placed at the colliding addresses (harness-owned operator new + mmap(MAP_FIXED_NOREPLACE)), connected/unconnected both ways, '
         'both component and query orders, on the analysed model and on a fresh analyser model; the key the real code stored in mCachedEquivalentVariables is compared with K on every witness, '
-        'on 141 spread addresses and on 1024 / 4096 consecutive objects per base (all pairs). If the code is keyed differently the evidence says model_bound:false and the verdict rests on '
+        'on 141 spread addresses and on 1024 / 2048 consecutive objects per base (all pairs). If the code is keyed differently the evidence says model_bound:false and the verdict rests on '
         'the end-to-end replays and all-pairs correctness + observed-key injectivity on those address sets.',
    note='Trusted: union-find reference, the placement allocator (an address is only used when the kernel maps exactly that page), glibc/ASan allocators for part (a), the one-line key model (only used to FIND '
         'candidate addresses; every verdict is an answer of the real code). Windows are a finite list of bases, each explored exhaustively; absence of collisions elsewhere is claimed only '
@@ -62,7 +105,7 @@ CHECKS = {
    text='Pool U = every units definition over references {metre, second, gram, litre, volt, dimensionless, user base units, earlier members}, prefix {none, milli, kilo, 3, -2}, '
         'exponent {1, 2, -1, 0.5, 0}, multiplier {1, 1000, 0.25}: all 600 one-child definitions, all ordered pairs of a child menu (two children, both orders), nesting depth 1 and 2, '
         'each also imported (Importer::addModel) and reached through an imported intermediate, every built-in name as a childless object, parentless definitions (quick 2644 members / '
-        '135 reduction classes; thorough about 20 k / 274). ALL ordered pairs of U (compatible, scalingFactor, equivalent; symmetry and inverse law), ALL triples of a sub-pool holding '
+        '135 reduction classes, sub-pool 497; thorough 12860 / 265, sub-pool 917). ALL ordered pairs of U (compatible, scalingFactor, equivalent; symmetry and inverse law), ALL triples of a sub-pool holding '
         'every reduction class (transitivity, multiplicativity), null / dangling / parentless / unresolved arguments, child-order and import twins, and one validated two-component model '
         'per ordered pair of the sub-pool (verdict and both parts of the mismatch hint), plus one analysed model with executed generated C per equal-reduction pair of the sub-pool. Complete for the stated menus; nothing is sampled.',
    note='Trusted: the reference (exact rationals for exponents, log10 scale as a + b*log10(2), built-in units table typed from the CellML 2.0 specification), glibc log10/pow within 1e-12, '
@@ -77,4 +120,98 @@ CHECKS = {
         'slot, and every sequence of <= 4 (5) units over 7 kinds, compared unsorted with an independently built expected model. Complete for the stated bounds.',
    note='Trusted: the relation sibling / parent / child read off the parent vector, the documented definition of "empty" in model.h (import-only and encapsulation-id-only entities are accepted either way), '
         'the canonical dump of common.hpp, the validator as a second opinion only when true is returned. A variable never has more than three equivalences; two variables of one component are never connected.'),
+ 'C13': dict(level='model_checking', ref='3/C13',
+   technique='explicit-state breadth-first search over Annotator API histories with the implementation as transition relation (xstate.hpp), states de-duplicated on the models plus the annotator\'s hidden cache/counter; '
+             'plus bounded-exhaustive placement of pre-existing ids; every transition judged against an independent traversal of the model',
+   text='Universe: a model with 3 components (one encapsulated, one imported), 2 variables with one equivalence, local and imported units, 1 unit child, 1 reset, 1 shared import source, and a second model '
+        'for foreign items. Alphabet (123 operations): setModel(m0|m1|null); after-setModel edits of 16 id carriers to "", "a", the next automatic id and its successor; add/remove entities; destroy the model; '
+        'assignAllIds(), assignAllIds(m0|m1|null), assignIds(type) for all 15 CellmlElementType values, assignId for 25 items (every carrier, foreign, out-of-range, null, inconsistent), clearAllIds x4. '
+        'Depth: quick 3 (no-ids start, full alphabet), 2 (mixed-ids start), 3 (38-operation core alphabet, both starts); thorough 3 (full, both starts) and 4 (core, both starts). Lookups (item, items, ids, '
+        'duplicateIds, itemCount, isUnique, 13 typed getters, indexed forms) and Printer::printModel(m, true) are observations in every reached state. Plus every placement of <= 1 (quick) / <= 2 (thorough) '
+        'menu ids on 19 carriers x 3 backgrounds x 36 assign* calls on a fresh annotator, and index >= count for every getter.',
+   note='Trusted: the traversal through public getters (reference), libxml2 for reading the printed text, ASan/UBSan as crash oracle, a mirrored AnnotatorImpl layout (verified by a start-up probe) used only for the '
+        'de-duplication key and the "next automatic id" menu entry. Not claimed: histories longer than the depth, other universes (several connections between the same components, MathML ids), lookups without a model.'),
+ 'C15': dict(level='exploration', ref='3/C15',
+   technique='bounded-exhaustive enumeration: enum sweeps (ReferenceRule x level, element type x stored object x accessor), all import lists of <= 2/3 imports over 14 library files on disk, all single deviations of '
+             '4 seed documents through every service in strict and permissive mode, one scenario per failing path; a Logger-coherence checker runs after every service call (also inside every other check of the suite)',
+   text='rules: 132 ReferenceRule values x 3 levels on issues built through Issue::IssueImpl; anyelement: 16 type values x 21 stored-object kinds x 8 accessors; explain: ~125 failing scenarios (parser, importer, annotator, '
+        'analyser; strict and permissive); imports: every ordered list of <= 2 (quick) / <= 3 (thorough) imports, each component|units x {valid, CellML 1.1, related/unrelated errors, warnings, not XML, empty, missing, '
+        'missing target, nested, cyclic, missing units} x strict/permissive, resolved from disk and again from the library, flattened, analysed; corpus: ~890 single deviations (delete/duplicate/rename/empty element; '
+        'delete/rename/empty/garbage/copy-sibling attribute) of 4 seeds x 2 modes through parser, validator, printer(+autoIds), analyser, importer, annotator. After every call: counts add up, per-level accessors enumerate '
+        'issue(i) in order, out-of-range indices null, description/level/rule/heading/url/item coherent; failing results have issues.',
+   note='Trusted: the checker in harness/common.hpp (written from the statement; reads the stored std::any through -fno-access-control), the harness\'s reading of "fails". Not claimed: documents more than one deviation away from '
+        'the seeds; whether an import should have succeeded (C07). Crashes found by the corpus belong to C01 and are listed as known findings.'),
+ 'C12': dict(level='model_checking', ref='3/C12',
+   technique='explicit-state exploration of call histories on the real code with one forked process per history and per probe: all histories of length <= 2 (quick) / <= 3 (thorough) '
+             'over a 26-operation alphabet, each followed by every operation as a probe, compared with the same probe in a fresh process; plus BFS to closure over the abstract tuple of '
+             'process-global state (all public libxml2 globals, parser-initialised flags, DTD-decompressed flag) with the abstraction validated on every transition',
+   text='Alphabet: parse strict/permissive x 6 documents (math with / without inter-element blanks, resets with math, imports, CellML 1.1, invalid incl. DTD-invalid math), print, print+autoIds, '
+        'validate (valid, invalid), analyse (valid, invalid, unlinked units), generate C / Python, resolveImports, flattenModel, Annotator::assignAllIds, Units::scalingFactor, '
+        'Component::isDefined; service calls work on the model returned by the latest parse in the history, else on an API-built twin, on long-lived service instances. '
+        'Every history (mixed-radix index) runs once in a forked child of a pristine process and is followed by EVERY operation in a forked grandchild. Judged per (history, probe): '
+        'raw model dump (raw math strings) / text / issue list with descriptions equal to the fresh-process observation; argument model unchanged; second call on the same instance '
+        'observes the same; every model, issue and AnalyserModel returned earlier dumps as when returned; Analyser::model() exposes only the model just analysed. '
+        'Quick: 703 histories x 26 probes (+27 under ASan); thorough: 18279 x 26. BFS over global-state tuples runs to closure (7 states, 182 transitions), two histories with the same '
+        'tuple but different observations are reported as harness abstraction errors (exit 2). Complete for the stated bound; nothing is sampled.',
+   note='Trusted: the canonical dumps in harness/common.hpp + c12.cpp (public getters), fork() isolation, dlsym/ELF-symtab reads of the globals (no libxml2 accessor is called), libxml2 itself. '
+        'The known blank-handling leak is filtered by a CAUSAL predicate only: the finding must vanish when xmlKeepBlanksDefaultValue is put back to its fresh value after every library '
+        'call of the same history. Not claimed: histories longer than the bound, documents other than the six, hidden state that no probe of the alphabet can observe, the annotator as a judged service.'),
+ 'C02': dict(level='exploration', ref='3/C02',
+   technique='bounded-exhaustive enumeration of model specs (forests x connection subsets x listing orders x id patterns; units; resets; imports; math) and of awkward '
+             'texts in every string attribute position, judged by an independent canonical dump and by a second, hand-written renderer of the same spec',
+   text='Every spec of harness/modelspec.hpp is taken through API build -> validator -> own XML rendering read by the strict parser (must equal the API-built model) -> '
+        'print -> independent well-formedness -> strict parse (same canonical content; no parser issue if the validator accepted the model) -> print -> parse (same content). '
+        'Quick: all labelled rooted forests on <= 3 components x 1|2 variables x every subset of <= 2 admissible variable pairs x every listing order x both orientations x 5 '
+        'id patterns x 2 name orders (29 736), variable attribute product (120), units definitions (6 698: all (reference,prefix,exponent,multiplier) combinations for <= 2 unit '
+        'children, every acyclic 2- and 3-definition reference structure in every listing order), resets (65), imports (346), math blocks x prefix declaration place (15), and '
+        '33 string attribute positions x 11 awkward texts (363); a sanitizer sub-family repeats <= 2 components, resets, imports, variables, texts under ASan+UBSan. Thorough: '
+        'subsets of <= 3 on 3 components (217 896), all 125 forests on 4 components with subsets of <= 2 (790 096), larger units/resets/imports families and all pairs of 29 '
+        'positions x 11^2 texts (49 126). Complete for the stated bounds; nothing is sampled.',
+   note='Trusted: the canonical dump of harness/common.hpp (public getters only), the spec renderers of harness/modelspec.hpp (string concatenation, own escaping), libxml2 as '
+        'independent well-formedness/canonicalisation oracle, the real validator as the definition of "validator-accepted". Not claimed: cross products of the families, models '
+        'with more than 4 components or 3 connections, autoIds printing, per-pair-inconsistent connection ids (domain note 2).'),
+ 'C14': dict(level='exploration', ref='3/C14',
+   technique='bounded-exhaustive enumeration of (model spec x every combination of the applicable CellML 1.0/1.1 spelling choices), judged against the strict parse of the CellML 2.0 '
+             'rendering of the same spec',
+   text='Every spec (forests on <= 2 components, thorough 3, x every subset of <= 2 admissible connections x id patterns; variable attribute product; units definitions; imports as 1.1; '
+        'math) is written as CellML 2.0 and as CellML 1.0/1.1 under all combinations of: namespace; encapsulation group alone / containment group before / after / both relationship_refs; '
+        'map_components first/last; public_interface/private_interface in both orders x "none" spelled out or omitted; three in/out patterns; units in the model or in the using '
+        'component; cmeta:id or id; litre/metre or liter/meter; cellml prefix declared on math/cn/model; with or without 1.x-only constructs (RDF, reaction/role, base_units). Oracle: '
+        'permissive parse == strict parse of the 2.0 text (canonical dump), nothing above MESSAGE, version message first, transformed model validates, prints and re-reads the same; '
+        'strict parser: >= 1 error and an empty model. Quick 83 220 documents (+ 12 000 under ASan+UBSan), thorough 2 370 498 (+ the 83 220 under sanitizers), plus 19 single-construct '
+        'probes x 2 namespaces. Complete for the stated bounds; nothing is sampled.',
+   note='Trusted: the 1.x and 2.0 renderers of harness/modelspec.hpp (the mechanical rewrite rules, written from the CellML 1.0/1.1 specifications), the canonical dump of '
+        'harness/common.hpp, the strict parser on the 2.0 text as reference (its faithfulness is C02\'s check on the same specs), the real validator. Not claimed: real-world 1.x files, '
+        'reaction semantics, 1.x documents that are not the rewrite of a valid 2.0 model (e.g. component-scoped units with clashing names, non-zero unit offsets).'),
+ 'C04': dict(level='fault_enumeration', ref='3/C04',
+   technique='bounded-exhaustive enumeration of valid-by-construction models built through the API (small-scope grammar, index-addressed) x a catalogue of 71 single-fault injectors applied at every applicable location, judged against an expected-rule table written from the CellML 2.0 rule names',
+   text='Bases: every component forest on <= 3 (quick) / 4 (thorough) components in every shape and child order x 1-2 variables per component x every set of <= 3 admissible connections x '
+        'connection / units-group / naming (incl. concatenation look-alikes) / id-decoration patterns; one units definition in every reference x prefix x exponent x multiplier x second-child '
+        'combination; variable units x initial value x interface; 0-2 resets over 1-3 connected components; every non-empty subset of 5 import kinds x shared/own source x ids x resolved by '
+        'Importer or not; 6 equation shapes x 3 contexts and one valid use of each of the 70 supported MathML elements. Each base must validate with zero issues; each injector (identifier '
+        'syntax, duplicate names, invalid/duplicate ids over 13 carrier kinds, standard-unit names, unit references/prefixes, units cycles of length 1-3, variable units/interface/initial value, '
+        'interface sufficiency, unreachable / parentless / unit-incompatible connections, incomplete or misplaced resets, duplicate reset orders over the connected variable set, import '
+        'href/reference/target/cycle faults, faults inside resolved libraries, and ~250 MathML faults: non-XML, wrong root, unsupported or foreign elements, DTD violations, arity and position per '
+        'operator family, ci/cn faults, foreign cellml attributes, ids) is applied at every applicable location, one fault at a time, and must yield an ERROR citing a rule of its expected set. '
+        'Complete for the stated bounds; nothing is sampled.',
+   note='Trusted: the base grammar (valid by construction) and the expected-rule table in harness/c04.cpp, written from Issue::ReferenceRule names and the section headings of issue.cpp; where the '
+        'broken rule and a neighbouring rule cannot be told apart through the object model both are listed there with the reason. Math-bearing bases (16-75 ms per validation) run the reset, math, '
+        'id and name injectors only; cyclic units are injected away from connected variables (the crash class under connections is the separate 6-case family). ASan/UBSan sub-family on the smallest bases.'),
+ 'C07': dict(level='fault_enumeration', ref='3/C07',
+   technique='bounded-exhaustive enumeration of all import graphs of small shapes, every single fault at every position of every resolvable graph and all repair sequences of depth 3, on the real Importer (files on disk and addModel library), judged by a reference graph search on the spec',
+   text='All import graphs with F files are enumerated by mixed radix: every component / units of every file is concrete (with every local units-reference pattern: component uses units k, an '
+        'encapsulated child uses units k, units reference every subset of the other local units or themselves) or an import of every same-kind entity of every file, own file included. Quick: '
+        '2 and 3 files x (1 component + 1 units) (400 + 27 000 graphs), 1+1 | 2+2 (69 120), units-only 3|1|1 and 1|3|1 (2 x 49 000), each delivered as files on disk and as an addModel library; '
+        'every single fault (file missing, truncated at 6 prefix classes, other XML, CellML 1.1 with strict and permissive importer, 2.0 with parse errors / validation errors / parser warnings, '
+        'every entity of every library file removed, every back-edge closing an import cycle of each length) on every resolvable connected graph of four of these shapes; repair sequences '
+        'resolve(fault) -> [flatten] -> repair on disk / in the library -> {importer as is, after removeAllModels(), new importer} x {same root object, root parsed again} -> resolve -> flatten '
+        'on the 2- and 3-file shapes. Thorough adds 4 files x 1+1 with <= 4 imports (434 432 graphs), 3 files x 2+2 with <= 4 imports (691 489), 1|1+3|0+1 (118 098), with their fault families, '
+        'and repairs on three more shapes. resolveImports is compared with the reference (true exactly when every transitive import is satisfiable), then hasUnresolvedImports(), the item of the '
+        'issues, flattenModel (null with an issue when unresolved), libraryCount()/key(i)/library(), Logger coherence after every call; every call runs under a stack-overflow guard so that '
+        'non-termination by unbounded recursion is recorded per step and the scenario continues. Complete for the stated bounds; nothing is sampled.',
+   note='Trusted: the reference graph search and the CellML renderer in harness/c07.cpp (written from the property statement and the CellML 2.0 import rules; a selftest family checks that the '
+        'fault documents are what their names claim), libxml2, the filesystem. Not judged (generated and run for termination/coherence only): graphs whose files import from each other without '
+        'an entity-level cycle, graphs whose only cycle consists of ordinary units, needed files with 2.0 parse errors, resolution after a repair without clearing the library. Entity names are '
+        'the same in all files on purpose (name clashes). The bulk runs on the plain (-O2) library; the 2-file shapes (thorough: also the 3-file 1+1 shape) run under ASan+UBSan. Crash classes '
+        'are named by step and recursing function (frame-pointer chain / return-address census on the overflowing stack), not by sanitizer report.'),
 }
